@@ -129,8 +129,9 @@ func (g *GasStore) Set(key StoreKey, value []byte) error {
 func (g *GasStore) Get(key StoreKey) ([]byte, error) {
 	ok := g.GasCalculator.Consume(Gas(1), READFLAT, false)
 	if !ok {
-		//log.Error(ErrExceedGasLimit.Error())
-		return nil, ErrExceedGasLimit
+		// out of gas: charge nothing more, but never hide the block's own writes
+		// (State.Get treats an error as "not in the cache" and reads the last commit)
+		return g.SessionedDirectStorage.Get(key)
 	}
 	value, err := g.SessionedDirectStorage.Get(key)
 	if err != nil {
@@ -144,7 +145,7 @@ func (g *GasStore) Exists(key StoreKey) bool {
 	ok := g.GasCalculator.Consume(Gas(1), CHECKEXIST, false)
 	if !ok {
 		log.Error(ErrExceedGasLimit.Error())
-		return false
+		return g.SessionedDirectStorage.Exists(key)
 	}
 
 	exist := g.SessionedDirectStorage.Exists(key)
